@@ -506,6 +506,7 @@ func runC01(ctx *core.Ctx) {
 		c01UnicityLoop(ctx) // the seq / keys loop of enforceUnicity (c01_unicity.go)
 		c01Pipe(ctx, sch, rich) // the composed stage models vs LoadModelWithContext (c01_pipe.go)
 		c01Files(ctx)           // env_file / label_file resolution on a faulty disk (c01_files.go)
+		c01PipeFS(ctx)          // the composed pipeline with cross-file extends vs LoadModelWithContext (c01_pipefs.go)
 	}
 	if only == "" || only == "schema" {
 		schemacorr.Run(ctx) // gojsonschema vs Schema.conforms (harness/schema.go): the tie behind Props/C01Schema.lean
@@ -518,6 +519,9 @@ func runC01(ctx *core.Ctx) {
 	}
 	if only == "files" {
 		c01Files(ctx)
+	}
+	if only == "pipefs" {
+		c01PipeFS(ctx)
 	}
 	if only == "twice" {
 		c01Twice(ctx)
